@@ -136,6 +136,7 @@ class Inliner:
     def __init__(self, tree):
         self.tree = tree
         self.helpers = {}      # name -> (FunctionDef, kind, class name or None)
+        self.anywhere_returns = set()
         for st in tree.body:
             if isinstance(st, A.FUNC_TYPES):
                 self._cand(st, 'function', None)
@@ -166,7 +167,10 @@ class Inliner:
             return
         body = _guard_to_nested(_body(fn))
         if not _returns_in_tail(body):
-            return
+            # still usable where the call is the whole value of a `return` statement: there the helper's returns
+            # simply become the caller's returns, wherever they are
+            body = _body(fn)
+            self.anywhere_returns.add(n)
         if any(isinstance(x, (ast.Global, ast.Nonlocal)) for x in ast.walk(fn)):
             return
         if n in self.helpers:
@@ -227,7 +231,7 @@ class Inliner:
             return None
         return h, mapping
 
-    def _instantiate(self, h, mapping):
+    def _instantiate(self, h, mapping, caller_returns=False):
         fn, kind, cls, body = h
         _counter[0] += 1
         tag = '__inl%d' % _counter[0]
@@ -251,6 +255,12 @@ class Inliner:
         # parameters that are re-assigned inside the helper become locals too
         for p in list(subst):
             if p in locals_:
+                if caller_returns and isinstance(mapping[p], ast.Name):
+                    # `return helper(x)`: the caller is done with x, the helper may rebind it in place
+                    subst[p] = mapping[p]
+                    rename[p] = mapping[p].id
+                    pre[:] = [s_ for s_ in pre if not (isinstance(s_, ast.Assign) and A.is_name(s_.targets[0], p + tag))]
+                    continue
                 tmp = p + tag
                 if not (pre and any(isinstance(s, ast.Assign) and A.is_name(s.targets[0], tmp) for s in pre)):
                     pre.append(ast.Assign(targets=[ast.Name(id=tmp, ctx=ast.Store())], value=A.clone(mapping[p])))
@@ -280,7 +290,9 @@ class Inliner:
         if m is None:
             return None
         h, mapping = m
-        pre, body = self._instantiate(h, mapping)
+        if h[0].name in self.anywhere_returns and mode != 'return':
+            return None
+        pre, body = self._instantiate(h, mapping, caller_returns=(mode == 'return'))
         if mode == 'return':
             out = pre + body
             if not _ends_with_return(out):
@@ -316,6 +328,8 @@ class Inliner:
                     return c
                 h, mapping = m
                 fn, kind, cls, body = h
+                if fn.name in inl.anywhere_returns:
+                    return c
                 if len(body) == 1 and isinstance(body[0], ast.Return) and body[0].value is not None:
                     locals_ = {x.id for x in ast.walk(body[0]) if isinstance(x, ast.Name) and isinstance(x.ctx, ast.Store)}
                     if locals_ & set(mapping):
@@ -581,10 +595,185 @@ def inline_single_use_locals(fn):
     return total
 
 
+# nested functions of the pinned tree: rules bind roles to them, they are never inlined
+PINNED_NESTED = {'PoolExecutor', '_enumerate', '_serialize', 'catcher', 'function', 'get_files', 'group_break', 'read_text',
+                 'result', 'submit', 'terminate', 'worker'}
+
+
+def inline_nested_closures(fn):
+    """a *new* nested closure `def name(p...): return <expr>` that is only ever called (never passed around) is
+    substituted at its call sites: closures read their free variables at call time, so evaluating <expr> at the call
+    site is the same computation. The definition is removed."""
+    done = 0
+    for blk in _block_lists(fn):
+        for d in [x for x in blk if isinstance(x, ast.FunctionDef)]:
+            if d.name in PINNED_NESTED or d.decorator_list or d.args.vararg or d.args.kwarg or d.args.kwonlyargs \
+                    or d.args.defaults or A.contains_yield(d):
+                continue
+            body = _body(d)
+            if len(body) != 1 or not isinstance(body[0], ast.Return) or body[0].value is None:
+                continue
+            binds = [x for x in ast.walk(fn) if (isinstance(x, ast.FunctionDef) and x.name == d.name)
+                     or (isinstance(x, ast.Name) and x.id == d.name and isinstance(x.ctx, (ast.Store, ast.Del)))]
+            if len(binds) != 1:
+                continue
+            params = [a.arg for a in d.args.posonlyargs + d.args.args]
+            uses = [x for x in ast.walk(fn) if isinstance(x, ast.Name) and x.id == d.name and isinstance(x.ctx, ast.Load)
+                    and not any(x is y for y in ast.walk(d))]
+            calls = [x for x in ast.walk(fn) if isinstance(x, ast.Call) and isinstance(x.func, ast.Name) and x.func.id == d.name
+                     and not any(x is y for y in ast.walk(d))]
+            if not calls or len(calls) != len(uses):
+                continue
+            if any(len(c.args) != len(params) or c.keywords or any(isinstance(a, ast.Starred) for a in c.args) for c in calls):
+                continue
+            expr = body[0].value
+            nuse = {p_: sum(1 for x in ast.walk(expr) if isinstance(x, ast.Name) and x.id == p_) for p_ in params}
+            if any(not _simple(a) and nuse[p_] != 1 for c in calls for p_, a in zip(params, c.args)):
+                continue
+            if any(isinstance(x, ast.Name) and isinstance(x.ctx, ast.Store) for x in ast.walk(expr)):
+                continue
+
+            class T(ast.NodeTransformer):
+                def visit_Call(self, c):
+                    self.generic_visit(c)
+                    if isinstance(c.func, ast.Name) and c.func.id == d.name and any(c is y for y in calls):
+                        return ast.copy_location(_Subst(dict(zip(params, c.args)), {}).visit(A.clone(expr)), c)
+                    return c
+            for i_, st in enumerate(blk):
+                if st is not d:
+                    blk[i_] = T().visit(st)
+            # call sites in other blocks of the function
+            for other in _block_lists(fn):
+                if other is not blk:
+                    for i_, st in enumerate(other):
+                        other[i_] = T().visit(st)
+            blk.remove(d)
+            if not blk:
+                blk.append(ast.copy_location(ast.Pass(), d))
+            done += 1
+    return done
+
+
+def expand_nested_def_aliases(fn):
+    """`name = shared` where `shared` is a nested function defined once in fn (a callback shared between branches) is
+    replaced by a copy of the definition under the name `name`; a shared definition that is only used this way is
+    removed. Restores "each branch defines its own callbacks"."""
+    done = 0
+    nested = {}
+    for blk in _block_lists(fn):
+        for d in blk:
+            if isinstance(d, ast.FunctionDef):
+                nested.setdefault(d.name, []).append((d, blk))
+    for name, defs in nested.items():
+        if len(defs) != 1 or name in PINNED_NESTED:
+            continue
+        d, dblk = defs[0]
+        if any(isinstance(x, ast.Name) and x.id == name and isinstance(x.ctx, ast.Store) for x in ast.walk(fn)):
+            continue
+        loads = [x for x in ast.walk(fn) if isinstance(x, ast.Name) and x.id == name and isinstance(x.ctx, ast.Load)
+                 and not any(x is y for y in ast.walk(d))]
+        alias_sites = []
+        for blk in _block_lists(fn):
+            for i_, st in enumerate(blk):
+                if isinstance(st, ast.Assign) and len(st.targets) == 1 and isinstance(st.targets[0], ast.Name) \
+                        and isinstance(st.value, ast.Name) and st.value.id == name:
+                    alias_sites.append((blk, i_, st))
+        if not alias_sites or len(alias_sites) != len(loads):
+            continue
+        for blk, i_, st in alias_sites:
+            new = A.clone(d)
+            new.name = st.targets[0].id
+            ast.copy_location(new, st)
+            for x in ast.walk(new):
+                if hasattr(x, 'lineno'):
+                    x.lineno = st.lineno
+                    x.end_lineno = st.lineno
+            blk[blk.index(st)] = new
+            done += 1
+        dblk.remove(d)
+        if not dblk:
+            dblk.append(ast.copy_location(ast.Pass(), d))
+    return done
+
+
+def inline_nested_procedures(fn):
+    """a *new* nested function without parameters and without `return <value>` that is called exactly once, as a
+    statement, in the function that defines it: the body is placed at the call (its `nonlocal` declarations name
+    variables of this very function and are dropped)."""
+    done = 0
+    for blk in _block_lists(fn):
+        for d in [x for x in blk if isinstance(x, ast.FunctionDef)]:
+            if d.name in PINNED_NESTED or d.decorator_list or d.args.args or d.args.posonlyargs or d.args.vararg \
+                    or d.args.kwarg or d.args.kwonlyargs or A.contains_yield(d):
+                continue
+            if any(isinstance(x, ast.Return) for x in A.walk_stmts(d.body)):
+                continue
+            if any(isinstance(x, A.FUNC_TYPES + (ast.Lambda, ast.ClassDef)) for x in A.walk_stmts(d.body)):
+                continue
+            loads = [x for x in ast.walk(fn) if isinstance(x, ast.Name) and x.id == d.name and not any(x is y for y in ast.walk(d))]
+            if len(loads) != 1:
+                continue
+            site = None
+            for b2 in _block_lists(fn):
+                for st in b2:
+                    if isinstance(st, ast.Expr) and isinstance(st.value, ast.Call) and st.value.func is loads[0] \
+                            and not st.value.args and not st.value.keywords:
+                        site = (b2, st)
+            if site is None:
+                continue
+            # names the procedure binds locally (not nonlocal) would become locals of fn: only allowed if fn does not
+            # use them otherwise
+            nonlocals = {n_ for x in d.body if isinstance(x, ast.Nonlocal) for n_ in x.names}
+            own = {x.id for x in ast.walk(d) if isinstance(x, ast.Name) and isinstance(x.ctx, ast.Store)} - nonlocals
+            outer = {x.id for x in ast.walk(fn) if isinstance(x, ast.Name) and not any(x is y for y in ast.walk(d))}
+            if own & outer:
+                continue
+            body = [A.clone(x) for x in _body(d) if not isinstance(x, (ast.Nonlocal, ast.Global))]
+            if not body:
+                body = [ast.copy_location(ast.Pass(), d)]
+            b2, st = site
+            k = b2.index(st)
+            b2[k:k + 1] = body
+            blk.remove(d)
+            if not blk:
+                blk.append(ast.copy_location(ast.Pass(), d))
+            done += 1
+    return done
+
+
+def suppress_to_try(tree):
+    """`with contextlib.suppress(E...): body`  ->  `try: body / except (E...): pass` (same control flow)"""
+    done = 0
+
+    class T(ast.NodeTransformer):
+        def visit_With(self, n):
+            nonlocal done
+            self.generic_visit(n)
+            if len(n.items) == 1 and n.items[0].optional_vars is None and isinstance(n.items[0].context_expr, ast.Call) \
+                    and (A.dotted(n.items[0].context_expr.func) or '').split('.')[-1] == 'suppress' \
+                    and n.items[0].context_expr.args and not n.items[0].context_expr.keywords:
+                args = n.items[0].context_expr.args
+                typ = args[0] if len(args) == 1 else ast.Tuple(elts=list(args), ctx=ast.Load())
+                h = ast.ExceptHandler(type=typ, name=None, body=[ast.copy_location(ast.Pass(), n)])
+                ast.copy_location(h, n)
+                new = ast.Try(body=n.body, handlers=[h], orelse=[], finalbody=[])
+                done += 1
+                return ast.copy_location(new, n)
+            return n
+    T().visit(tree)
+    return done
+
+
 def normalise(tree):
     """in-place normalisation of a module tree; returns statistics"""
     stats = {'helpers_inlined': 0, 'aliases_inlined': 0, 'loops_to_comprehensions': 0}
+    stats['suppress_to_try'] = suppress_to_try(tree)
     stats['helpers_inlined'] = Inliner(tree).run()
+    stats['nested_closures_inlined'] = 0
+    for fn in [n for n in ast.walk(tree) if isinstance(n, A.FUNC_TYPES)]:
+        stats['nested_closures_inlined'] += expand_nested_def_aliases(fn)
+        stats['nested_closures_inlined'] += inline_nested_closures(fn)
+        stats['nested_closures_inlined'] += inline_nested_procedures(fn)
     for fn in [n for n in ast.walk(tree) if isinstance(n, A.FUNC_TYPES)]:
         stats['aliases_inlined'] += inline_aliases(fn)
     tree.body, k = loops_to_comprehensions(tree.body)
